@@ -67,19 +67,19 @@ Proof.
   exact (exact_list X (length bodies) bodies eq_refl Hne (len_ge1 _ Hb) s0 t1 p1 rest now Hwf Hg H1 Hall Hnc Hnow).
 Qed.
 
-Theorem expiry_f : forall X bodies s0 t1 p1 rest now later,
+Theorem expiry_f : forall X bodies s0 t1 p1 rest now e later,
   bodies <> [] -> Forall nonempty bodies -> wf s0 ->
   good_pkt X (len bodies) bodies p1 -> m_no p1 = 1 -> Forall (ok_after X bodies t1) rest ->
   ~ covers (len bodies) (numbers X (len bodies) ((t1, EvMsg p1) :: rest)) -> t1 + 60000 < now ->
-  Forall (fun te => no_start X (snd te)) later ->
-  let evs := ((t1, EvMsg p1) :: rest) ++ (now, EvEnd) :: later in
+  Forall (fun te => no_start X (snd te)) ((now, e) :: later) ->
+  let evs := ((t1, EvMsg p1) :: rest) ++ (now, e) :: later in
   let outs := snd (run s0 evs) in
   completions X outs = [] /\
   rereqs_from (S (length rest)) X (skipn (S (length rest)) outs) = [] /\
   find X (fst (run s0 evs)) = None.
 Proof.
-  intros X bodies s0 t1 p1 rest now later Hb Hne Hwf Hg H1 Hall Hnc Hnow Hl.
-  exact (expiry X (length bodies) bodies eq_refl Hne (len_ge1 _ Hb) s0 t1 p1 rest now later Hwf Hg H1 Hall Hnc Hnow Hl).
+  intros X bodies s0 t1 p1 rest now e later Hb Hne Hwf Hg H1 Hall Hnc Hnow Hl.
+  exact (expiry X (length bodies) bodies eq_refl Hne (len_ge1 _ Hb) s0 t1 p1 rest now e later Hwf Hg H1 Hall Hnc Hnow Hl).
 Qed.
 
 Theorem then_completes_f : forall X bodies s0 t1 p1 rest1 tr rest2 l1 t m l2,
